@@ -71,8 +71,20 @@ CLAIMED["C07"] = (
     "including whether the entry can be called with two operands.",
     _NOTE, "DESIGN.md section 5, C07")
 
+CLAIMED["C14"] = (
+    "printer-template extraction for CCodeMapper through its MRO + reference "
+    "parser driven by the ISO C operator table, compared in a real-arithmetic "
+    "normal form over all 2-/3-level nestings; role/def-use analysis of the "
+    "three CSE containers and path-order rules in map_common_subexpression",
+    "The emitted C text of every (parent, position, child) nesting is re-grouped "
+    "by a C-precedence reference parser and must denote the same tree up to "
+    "regroupings that cannot change a value; every writer of the CSE containers "
+    "must store values of the container's role. The C text is never compiled "
+    "or run.",
+    _NOTE, "DESIGN.md section 5, C14")
+
 for _p in ["C01", "C02", "C03", "C05", "C10", "C11",
-           "C12", "C13", "C14", "C15", "C16", "C17", "C19"]:
+           "C12", "C13", "C15", "C16", "C17", "C19"]:
     NOT_APPLICABLE[_p] = ("check under construction in this revision (see "
                           "DESIGN.md for the planned static rule)")
 NOT_APPLICABLE["C18"] = (
